@@ -109,10 +109,62 @@ pub fn fri_verifier_params() -> p3_recursion::pcs::fri::FriVerifierParams {
     p3_recursion::pcs::fri::FriVerifierParams::with_mmcs(s.log_blowup, s.log_final_poly_len, s.commit_pow_bits, s.query_pow_bits, perm_config())
 }
 
+/// Correspondence with `P3R.Packing.hidMerge`: the real `RecursivePcs::verify_circuit` of this
+/// configuration's PCS, called directly with a crafted opening structure (`open`: rounds →
+/// matrices → number of opening points) and the targets of an opening proof whose hiding random
+/// opened values have shape `hid` (rounds → matrices → points → length). The inner FRI proof has no
+/// queries, so a merge that succeeds is followed by `verify_fri_circuit`'s "at least one query"
+/// refusal: the answer is which shape check fired, in the driver's format.
+pub fn hidmerge(open: &[Vec<usize>], hid: &[Vec<Vec<usize>>]) -> String {
+    use p3_recursion::traits::{Recursive, RecursivePcs};
+    use p3_uni_stark::StarkGenericConfig as _;
+    type Dom = p3_field::coset::TwoAdicMultiplicativeCoset<F>;
+    let r = std::panic::catch_unwind(std::panic::AssertUnwindSafe(|| {
+        let config = make_config(1);
+        let mut cb = p3_circuit::CircuitBuilder::<EF>::new();
+        enable_perm(&mut cb);
+        let shape = super::Pcs { hid: if HIDING { Some(hid.to_vec()) } else { None }, fri: super::Fri { commits: vec![], commit_pow: 0, queries: vec![], final_poly: 1 } };
+        let opening = z_pcs(&shape);
+        let opening_t = <OpeningT as Recursive<EF>>::new(&mut cb, &opening);
+        let cap_t = <CapT as Recursive<EF>>::new(&mut cb, &p3_symmetric::MerkleCap::new(vec![[F::ZERO; DIGEST_ELEMS]]));
+        let x = cb.alloc_const(EF::ONE, "x");
+        let dom = Dom::new(F::ONE, 3).unwrap();
+        let coms: Vec<(CapT, Vec<(Dom, Vec<(p3_recursion::Target, Vec<p3_recursion::Target>)>)>)> =
+            open.iter().map(|mats| (cap_t.clone(), mats.iter().map(|&np| (dom, (0..np).map(|_| (x, vec![x])).collect())).collect())).collect();
+        let mut ch = p3_recursion::CircuitChallenger::<WIDTH, RATE, _>::new(perm_config());
+        let params = fri_verifier_params();
+        <ThePcs as RecursivePcs<SC, InputT, OpeningT, CapT, Dom>>::verify_circuit::<WIDTH, RATE, _>(config.pcs(), &mut cb, &[x], &mut ch, &coms, &opening_t, &params)
+            .map(|_| ())
+            .map_err(|e| format!("{e:?}"))
+    }));
+    match r {
+        Err(p) => format!("hidmerge panic:{}", super::panic_msg(p).chars().take(60).collect::<String>().replace(' ', "_")),
+        Ok(Ok(())) => "hidmerge accepted".into(),
+        Ok(Err(m)) => {
+            if m.contains("random rounds count") {
+                "hidmerge mismatch:rounds".into()
+            } else if m.contains("random matrices count") {
+                "hidmerge mismatch:matrices".into()
+            } else if m.contains("random points count") {
+                "hidmerge mismatch:points".into()
+            } else if m.contains("at least one query") {
+                "hidmerge ok".into()
+            } else {
+                format!("hidmerge other:{}", m.chars().filter(|c| c.is_alphanumeric() || *c == '_').take(60).collect::<String>())
+            }
+        }
+    }
+}
+
 pub enum Op<'a> {
     Walk(&'a mut dyn Vis),
+    /// structural walk: enumerate / apply / undo one shape mutation (see `ShapeVis`)
+    Shape(&'a mut ShapeVis),
     Native,
+    /// run the circuit that was built for the honest proof on the packed (value-perturbed) proof
     Run,
+    /// allocate + build the verifier circuit **for the current (shape-mutated) proof**, pack, run
+    Rebuild,
 }
 pub enum Resp {
     Unit,
@@ -123,6 +175,359 @@ pub enum Resp {
 fn short<E: core::fmt::Debug>(e: E) -> String {
     let s = format!("{e:?}");
     s.chars().take_while(|c| c.is_alphanumeric() || *c == '_').take(40).collect()
+}
+
+
+// ------------------------------------------------------------------------ structural perturbation
+//
+// "Every input matters" also quantifies over proofs whose *shape* differs from the honest one: the
+// verifier circuit is built from the proof at hand (`allocate(proof)`), so a container carrying a
+// surplus element becomes surplus circuit inputs. Either the circuit construction refuses the
+// shape, or the surplus inputs are wired to a check that fails — otherwise the packed vector
+// contains positions nothing reads although the native verdict depends on them.
+//
+// `ShapeVis` visits every variable-length container / option / cap / arity field of the proof
+// object (independently of `Recursive::new`) and can enumerate the applicable mutations, apply
+// one, and undo it.
+
+pub enum SMode {
+    Enumerate,
+    Apply(String, String),
+    Undo(String, String),
+}
+
+pub struct ShapeVis {
+    pub mode: SMode,
+    pub sites: Vec<(String, &'static str)>,
+    pub stash: Option<Box<dyn std::any::Any>>,
+    pub hit: bool,
+}
+
+impl ShapeVis {
+    pub fn new(mode: SMode) -> Self {
+        ShapeVis { mode, sites: vec![], stash: None, hit: false }
+    }
+    /// a `Vec`: `push` (a copy of the last element, or `fill` when empty), `pop`, and — the same at
+    /// the front, which shifts every later element — `ins0` (a copy of the first element inserted at
+    /// index 0) and `rem0` (first element removed; only when there are at least two)
+    pub fn seq_by<T: 'static>(&mut self, label: &str, v: &mut Vec<T>, dup: &dyn Fn(&T) -> T, fill: Option<T>) {
+        match &self.mode {
+            SMode::Enumerate => {
+                if !v.is_empty() || fill.is_some() {
+                    self.sites.push((label.to_string(), "push"));
+                }
+                if !v.is_empty() {
+                    self.sites.push((label.to_string(), "pop"));
+                    self.sites.push((label.to_string(), "ins0"));
+                }
+                if v.len() >= 2 {
+                    self.sites.push((label.to_string(), "rem0"));
+                }
+            }
+            SMode::Apply(l, op) if l == label => match op.as_str() {
+                "ins0" => {
+                    if let Some(e) = v.first().map(dup) {
+                        v.insert(0, e);
+                        self.hit = true;
+                    }
+                }
+                "rem0" => {
+                    if v.len() >= 2 {
+                        self.stash = Some(Box::new(v.remove(0)));
+                        self.hit = true;
+                    }
+                }
+                "push" => {
+                    if let Some(e) = v.last().map(dup).or(fill) {
+                        v.push(e);
+                        self.hit = true;
+                    }
+                }
+                "pop" => {
+                    if let Some(e) = v.pop() {
+                        self.stash = Some(Box::new(e));
+                        self.hit = true;
+                    }
+                }
+                _ => {}
+            },
+            SMode::Undo(l, op) if l == label => match op.as_str() {
+                "ins0" => {
+                    v.remove(0);
+                    self.hit = true;
+                }
+                "rem0" => {
+                    if let Some(e) = self.stash.take().and_then(|b| b.downcast::<T>().ok()) {
+                        v.insert(0, *e);
+                        self.hit = true;
+                    }
+                }
+                "push" => {
+                    v.pop();
+                    self.hit = true;
+                }
+                "pop" => {
+                    if let Some(e) = self.stash.take().and_then(|b| b.downcast::<T>().ok()) {
+                        v.push(*e);
+                        self.hit = true;
+                    }
+                }
+                _ => {}
+            },
+            _ => {}
+        }
+    }
+    pub fn seq<T: Clone + 'static>(&mut self, label: &str, v: &mut Vec<T>, fill: Option<T>) {
+        self.seq_by(label, v, &|x: &T| x.clone(), fill)
+    }
+    /// an `Option`: `none` (drop it) / `some` (supply `fill`)
+    pub fn opt<T: 'static>(&mut self, label: &str, o: &mut Option<T>, fill: Option<T>) {
+        match &self.mode {
+            SMode::Enumerate => {
+                if o.is_some() {
+                    self.sites.push((label.to_string(), "none"));
+                } else if fill.is_some() {
+                    self.sites.push((label.to_string(), "some"));
+                }
+            }
+            SMode::Apply(l, op) if l == label => match op.as_str() {
+                "none" => {
+                    if let Some(e) = o.take() {
+                        self.stash = Some(Box::new(e));
+                        self.hit = true;
+                    }
+                }
+                "some" => {
+                    if o.is_none() && fill.is_some() {
+                        *o = fill;
+                        self.hit = true;
+                    }
+                }
+                _ => {}
+            },
+            SMode::Undo(l, op) if l == label => match op.as_str() {
+                "none" => {
+                    if let Some(e) = self.stash.take().and_then(|b| b.downcast::<T>().ok()) {
+                        *o = Some(*e);
+                        self.hit = true;
+                    }
+                }
+                "some" => {
+                    *o = None;
+                    self.hit = true;
+                }
+                _ => {}
+            },
+            _ => {}
+        }
+    }
+    /// a Merkle cap (power-of-two many roots): `double` / `halve`
+    pub fn cap(&mut self, label: &str, c: &mut Com) {
+        let roots: Vec<[F; DIGEST_ELEMS]> = c.roots().to_vec();
+        match &self.mode {
+            SMode::Enumerate => {
+                self.sites.push((label.to_string(), "double"));
+                if roots.len() >= 2 {
+                    self.sites.push((label.to_string(), "halve"));
+                }
+            }
+            SMode::Apply(l, op) if l == label => match op.as_str() {
+                "double" => {
+                    let mut r2 = roots.clone();
+                    r2.extend(roots.iter().cloned());
+                    *c = p3_symmetric::MerkleCap::new(r2);
+                    self.hit = true;
+                }
+                "halve" if roots.len() >= 2 => {
+                    self.stash = Some(Box::new(roots.clone()));
+                    *c = p3_symmetric::MerkleCap::new(roots[..roots.len() / 2].to_vec());
+                    self.hit = true;
+                }
+                _ => {}
+            },
+            SMode::Undo(l, op) if l == label => match op.as_str() {
+                "double" => {
+                    *c = p3_symmetric::MerkleCap::new(roots[..roots.len() / 2].to_vec());
+                    self.hit = true;
+                }
+                "halve" => {
+                    if let Some(r) = self.stash.take().and_then(|b| b.downcast::<Vec<[F; DIGEST_ELEMS]>>().ok()) {
+                        *c = p3_symmetric::MerkleCap::new(*r);
+                        self.hit = true;
+                    }
+                }
+                _ => {}
+            },
+            _ => {}
+        }
+    }
+    /// a small counter field (`log_arity`): `inc` / `dec`
+    pub fn num(&mut self, label: &str, x: &mut u8) {
+        match &self.mode {
+            SMode::Enumerate => {
+                self.sites.push((label.to_string(), "inc"));
+                if *x > 0 {
+                    self.sites.push((label.to_string(), "dec"));
+                }
+            }
+            SMode::Apply(l, op) | SMode::Undo(l, op) if l == label => {
+                let undo = matches!(self.mode, SMode::Undo(..));
+                match (op.as_str(), undo) {
+                    ("inc", false) | ("dec", true) => {
+                        *x += 1;
+                        self.hit = true;
+                    }
+                    ("dec", false) | ("inc", true) if *x > 0 => {
+                        *x -= 1;
+                        self.hit = true;
+                    }
+                    _ => {}
+                }
+            }
+            _ => {}
+        }
+    }
+}
+
+fn s_opt_cap(label: &str, c: &mut Option<Com>, sv: &mut ShapeVis) {
+    sv.opt(&format!("{label}?"), c, Some(p3_symmetric::MerkleCap::new(vec![[F::ZERO; DIGEST_ELEMS]])));
+    if let Some(c) = c {
+        sv.cap(label, c);
+    }
+}
+
+fn s_opt_vec(label: &str, o: &mut Option<Vec<EF>>, width: usize, sv: &mut ShapeVis) {
+    sv.opt(&format!("{label}?"), o, Some(vec![EF::ZERO; width]));
+    if let Some(t) = o {
+        sv.seq(label, t, Some(EF::ZERO));
+    }
+}
+
+fn s_ov(pre: &str, o: &mut p3_uni_stark::OpenedValues<EF>, sv: &mut ShapeVis) {
+    sv.seq(&format!("{pre}.tl"), &mut o.trace_local, Some(EF::ZERO));
+    let w = o.trace_local.len();
+    s_opt_vec(&format!("{pre}.tn"), &mut o.trace_next, w, sv);
+    s_opt_vec(&format!("{pre}.pl"), &mut o.preprocessed_local, 1, sv);
+    s_opt_vec(&format!("{pre}.pn"), &mut o.preprocessed_next, 1, sv);
+    sv.seq(&format!("{pre}.q"), &mut o.quotient_chunks, Some(vec![]));
+    for (j, c) in o.quotient_chunks.iter_mut().enumerate() {
+        sv.seq(&format!("{pre}.q{j}"), c, Some(EF::ZERO));
+    }
+    s_opt_vec(&format!("{pre}.rnd"), &mut o.random, 1, sv);
+}
+
+fn s_mmcs(pre: &str, p: &mut MmcsProof, sv: &mut ShapeVis) {
+    if let Some(s) = salts_mut(p) {
+        sv.seq(&format!("{pre}.salt"), s, Some(vec![]));
+        for (m, x) in s.iter_mut().enumerate() {
+            sv.seq(&format!("{pre}.salt{m}"), x, Some(F::ZERO));
+        }
+    }
+}
+
+fn s_fri(f: &mut Fri, sv: &mut ShapeVis) {
+    sv.seq("fri.cpc", &mut f.commit_phase_commits, None);
+    for (k, c) in f.commit_phase_commits.iter_mut().enumerate() {
+        sv.cap(&format!("fri.cpc{k}"), c);
+    }
+    sv.seq("fri.cpow", &mut f.commit_pow_witnesses, Some(F::ZERO));
+    sv.seq("fri.q", &mut f.query_proofs, None);
+    for (q, qp) in f.query_proofs.iter_mut().enumerate() {
+        sv.seq(&format!("fri.q{q}.in"), &mut qp.input_proof, None);
+        for (b, bo) in qp.input_proof.iter_mut().enumerate() {
+            let pre = format!("fri.q{q}.in{b}");
+            sv.seq(&format!("{pre}.m"), &mut bo.opened_values, Some(vec![]));
+            for (m, row) in bo.opened_values.iter_mut().enumerate() {
+                sv.seq(&format!("{pre}.m{m}"), row, Some(F::ZERO));
+            }
+            s_mmcs(&pre, &mut bo.opening_proof, sv);
+        }
+        sv.seq(&format!("fri.q{q}.ph"), &mut qp.commit_phase_openings, None);
+        for (k, st) in qp.commit_phase_openings.iter_mut().enumerate() {
+            let pre = format!("fri.q{q}.ph{k}");
+            sv.num(&format!("{pre}.log_arity"), &mut st.log_arity);
+            sv.seq(&format!("{pre}.sib"), &mut st.sibling_values, Some(EF::ZERO));
+            s_mmcs(&pre, &mut st.opening_proof, sv);
+        }
+    }
+    sv.seq("fri.final", &mut f.final_poly, Some(EF::ZERO));
+}
+
+fn s_opening(o: &mut Opening, sv: &mut ShapeVis) {
+    let (hid, fri) = split_mut(o);
+    if let Some(h) = hid {
+        sv.seq("hid", h, Some(vec![]));
+        for (r, round) in h.iter_mut().enumerate() {
+            sv.seq(&format!("hid.r{r}"), round, Some(vec![]));
+            for (m, mat) in round.iter_mut().enumerate() {
+                sv.seq(&format!("hid.r{r}.m{m}"), mat, Some(vec![EF::ZERO]));
+                for (p, pt) in mat.iter_mut().enumerate() {
+                    sv.seq(&format!("hid.r{r}.m{m}.p{p}"), pt, Some(EF::ZERO));
+                }
+            }
+        }
+    }
+    s_fri(fri, sv);
+}
+
+pub fn swalk_uni(pis: &mut Vec<F>, proof: &mut p3_uni_stark::Proof<SC>, sv: &mut ShapeVis) {
+    sv.seq("air0", pis, Some(F::ZERO));
+    sv.cap("com.main", &mut proof.commitments.trace);
+    sv.cap("com.quot", &mut proof.commitments.quotient_chunks);
+    s_opt_cap("com.rand", &mut proof.commitments.random, sv);
+    s_ov("ov0", &mut proof.opened_values, sv);
+    s_opening(&mut proof.opening_proof, sv);
+}
+
+fn dup_ovl(o: &p3_batch_stark::proof::OpenedValuesWithLookups<EF>) -> p3_batch_stark::proof::OpenedValuesWithLookups<EF> {
+    let b = &o.base_opened_values;
+    p3_batch_stark::proof::OpenedValuesWithLookups {
+        base_opened_values: p3_uni_stark::OpenedValues {
+            trace_local: b.trace_local.clone(),
+            trace_next: b.trace_next.clone(),
+            preprocessed_local: b.preprocessed_local.clone(),
+            preprocessed_next: b.preprocessed_next.clone(),
+            quotient_chunks: b.quotient_chunks.clone(),
+            random: b.random.clone(),
+        },
+        permutation_local: o.permutation_local.clone(),
+        permutation_next: o.permutation_next.clone(),
+    }
+}
+
+/// `with_pis = false`: the air public values are not an input of the native verifier of this
+/// setup (circuit tables: they are derived from the proof), so they are no mutation sites.
+pub fn swalk_batch(pis: &mut Vec<Vec<F>>, with_pis: bool, proof: &mut p3_batch_stark::BatchProof<SC>, prep: &mut Option<Com>, sv: &mut ShapeVis) {
+    if with_pis {
+        sv.seq("air", pis, Some(vec![]));
+        for (i, p) in pis.iter_mut().enumerate() {
+            sv.seq(&format!("air{i}"), p, Some(F::ZERO));
+        }
+    }
+    sv.cap("com.main", &mut proof.commitments.main);
+    s_opt_cap("com.perm", &mut proof.commitments.permutation, sv);
+    sv.cap("com.quot", &mut proof.commitments.quotient_chunks);
+    s_opt_cap("com.rand", &mut proof.commitments.random, sv);
+    sv.seq_by("ov", &mut proof.opened_values.instances, &dup_ovl, None);
+    for (i, inst) in proof.opened_values.instances.iter_mut().enumerate() {
+        let pre = format!("ov{i}");
+        s_ov(&pre, &mut inst.base_opened_values, sv);
+        sv.seq(&format!("{pre}.prl"), &mut inst.permutation_local, Some(EF::ZERO));
+        sv.seq(&format!("{pre}.prn"), &mut inst.permutation_next, Some(EF::ZERO));
+    }
+    s_opening(&mut proof.opening_proof, sv);
+    sv.seq_by(
+        "term",
+        &mut proof.lookup_terminals,
+        &|t: &Option<p3_lookup::LookupTerminal<EF>>| t.as_ref().map(|t| p3_lookup::LookupTerminal(t.0)),
+        Some(None),
+    );
+    for (i, t) in proof.lookup_terminals.iter_mut().enumerate() {
+        sv.opt(&format!("term.{i}?"), t, Some(p3_lookup::LookupTerminal(EF::ZERO)));
+    }
+    if let Some(c) = prep {
+        sv.cap("prep", c);
+    }
 }
 
 /// Alter one element per chosen label; judge natively; pack and run.
@@ -182,14 +587,108 @@ pub fn drive(name: &str, seed: u64, per_kind: usize, positions: usize, f: &mut d
             let c = run(f);
             let mut back = Mutate { label: label.clone(), delta: -F::ONE, hit: false };
             f(Op::Walk(&mut back));
-            perts.push(super::Pert { setup: name.to_string(), label, native_ok, circuit_ok: c.is_ok(), circuit_err: c.err().unwrap_or_default() });
+            perts.push(super::Pert { setup: name.to_string(), label, op: String::new(), elem: String::new(), native_ok, circuit_ok: c.is_ok(), circuit_err: c.err().unwrap_or_default() });
         }
         // the proof must be back to the honest one
         if !(native(f) && run(f).is_ok()) {
-            perts.push(super::Pert { setup: name.to_string(), label: "restore".into(), native_ok: true, circuit_ok: false, circuit_err: "proof not restored after perturbation".into() });
+            perts.push(super::Pert { setup: name.to_string(), label: "restore".into(), op: String::new(), elem: String::new(), native_ok: true, circuit_ok: false, circuit_err: "proof not restored after perturbation".into() });
         }
     }
-    super::CampaignRes { setup: name.to_string(), positions, baseline_ok, baseline_note, perts, secs: t0.elapsed().as_secs_f64() }
+    // ---- structural perturbation: one container / option / cap / arity changed at a time; the
+    // verifier circuit is rebuilt for the mutated proof (allocate → verify → build → pack → run)
+    let mut shape_sites = 0usize;
+    if baseline_ok {
+        let mut rebuild = |f: &mut dyn FnMut(Op) -> Resp| -> Result<(), String> {
+            match catch_unwind(AssertUnwindSafe(|| f(Op::Rebuild))) {
+                Ok(Resp::Res(r)) => r,
+                Ok(_) => Err("bad-op".into()),
+                Err(p) => Err(format!("panic:{}", super::panic_msg(p).chars().take(60).collect::<String>())),
+            }
+        };
+        let mut en = ShapeVis::new(SMode::Enumerate);
+        f(Op::Shape(&mut en));
+        let mut sites: Vec<(String, String)> = en.sites.iter().map(|(l, o)| (l.clone(), o.to_string())).collect();
+        shape_sites = sites.len();
+        match (super::ONLY_LABEL.get(), super::ONLY_OP.get()) {
+            (Some(l), Some(o)) => sites.retain(|s| &s.0 == l && &s.1 == o),
+            (Some(_), None) => sites.clear(), // replay of a value perturbation
+            _ => {}
+        }
+        // the rebuilt circuit must accept the honest proof (otherwise `Rebuild` says nothing)
+        let r0 = rebuild(f);
+        if let Err(e) = &r0 {
+            perts.push(super::Pert { setup: name.to_string(), label: "rebuild-baseline".into(), op: "none".into(), elem: String::new(), native_ok: true, circuit_ok: false, circuit_err: e.clone() });
+            sites.clear();
+        }
+        for (label, op) in sites {
+            let mut ap = ShapeVis::new(SMode::Apply(label.clone(), op.clone()));
+            f(Op::Shape(&mut ap));
+            if !ap.hit {
+                continue;
+            }
+            let native_ok = native(f);
+            let c = rebuild(f);
+            if c.is_ok() {
+                // The circuit built for the mutated proof accepts it. Every input of *that* circuit
+                // must matter too: alter every surplus element (names the honest proof does not
+                // have) and the first / last element of every other kind; the native verifier
+                // rejects (it rejected the shape already, or the altered value), so a circuit that
+                // still accepts has an input no check reads.
+                let mut col2 = Collect { items: vec![] };
+                f(Op::Walk(&mut col2));
+                let honest: std::collections::HashSet<&String> = labels.iter().collect();
+                let mut surplus: Vec<String> = vec![];
+                let mut rest: std::collections::BTreeMap<String, Vec<String>> = Default::default();
+                for (l, _) in &col2.items {
+                    if honest.contains(l) {
+                        rest.entry(super::kind_of(l)).or_default().push(l.clone());
+                    } else {
+                        surplus.push(l.clone());
+                    }
+                }
+                let ns = surplus.len();
+                let mut chosen: Vec<(String, bool)> = if ns <= 24 {
+                    surplus.into_iter().map(|l| (l, true)).collect()
+                } else {
+                    (0..24).map(|i| (surplus[i * (ns - 1) / 23].clone(), true)).collect()
+                };
+                for (_k, ls) in rest {
+                    chosen.push((ls[0].clone(), false));
+                    if ls.len() > 1 {
+                        chosen.push((ls[ls.len() - 1].clone(), false));
+                    }
+                }
+                for (elem, is_surplus) in chosen {
+                    let mut m = Mutate { label: elem.clone(), delta: F::ONE, hit: false };
+                    f(Op::Walk(&mut m));
+                    if !m.hit {
+                        continue;
+                    }
+                    let n2 = native(f);
+                    let c2 = rebuild(f);
+                    let mut back = Mutate { label: elem.clone(), delta: -F::ONE, hit: false };
+                    f(Op::Walk(&mut back));
+                    perts.push(super::Pert {
+                        setup: name.to_string(),
+                        label: label.clone(),
+                        op: op.clone(),
+                        elem: format!("{}{elem}", if is_surplus { "+" } else { "" }),
+                        native_ok: n2,
+                        circuit_ok: c2.is_ok(),
+                        circuit_err: c2.err().unwrap_or_default(),
+                    });
+                }
+            }
+            let mut un = ShapeVis::new(SMode::Undo(label.clone(), op.clone()));
+            un.stash = ap.stash.take();
+            f(Op::Shape(&mut un));
+            perts.push(super::Pert { setup: name.to_string(), label, op, elem: String::new(), native_ok, circuit_ok: c.is_ok(), circuit_err: c.err().unwrap_or_default() });
+        }
+        if !(native(f) && run(f).is_ok()) {
+            perts.push(super::Pert { setup: name.to_string(), label: "restore".into(), op: "shape".into(), elem: String::new(), native_ok: true, circuit_ok: false, circuit_err: "proof not restored after structural perturbation".into() });
+        }
+    }
+    super::CampaignRes { setup: name.to_string(), positions, shape_sites, baseline_ok, baseline_note, perts, secs: t0.elapsed().as_secs_f64() }
 }
 
 fn run_circuit(
@@ -213,22 +712,26 @@ fn campaign_uni(seed: u64, per_kind: usize) -> Vec<super::CampaignRes> {
     let (trace, mut pis) = fib_trace(8);
     let mut proof = p3_uni_stark::prove(&config, &air, trace, &pis);
     let mut prep: Option<Com> = None;
-    let mut cb = p3_circuit::CircuitBuilder::<EF>::new();
-    enable_perm(&mut cb);
-    let vi = UniBuilder::allocate(&mut cb, &proof, None, pis.len());
     let params = fri_verifier_params();
-    let op_ids = p3_recursion::verify_p3_uni_proof_circuit::<CAir, SC, CapT, InputT, OpeningT, _, WIDTH, RATE>(
-        &config,
-        &air,
-        &mut cb,
-        &vi.proof_targets,
-        &vi.air_public_targets,
-        &None,
-        &params,
-        perm_config(),
-    )
-    .unwrap_or_else(|e| panic!("verifier circuit: {e:?}"));
-    let circuit = cb.build().unwrap_or_else(|e| panic!("build: {e:?}"));
+    let build = |proof: &p3_uni_stark::Proof<SC>, npis: usize| -> Result<(UniBuilder, p3_circuit::Circuit<EF>, Vec<p3_circuit::NonPrimitiveOpId>), String> {
+        let mut cb = p3_circuit::CircuitBuilder::<EF>::new();
+        enable_perm(&mut cb);
+        let vi = UniBuilder::allocate(&mut cb, proof, None, npis);
+        let op_ids = p3_recursion::verify_p3_uni_proof_circuit::<CAir, SC, CapT, InputT, OpeningT, _, WIDTH, RATE>(
+            &config,
+            &air,
+            &mut cb,
+            &vi.proof_targets,
+            &vi.air_public_targets,
+            &None,
+            &params,
+            perm_config(),
+        )
+        .map_err(|e| format!("verifier-circuit:{}", short(e)))?;
+        let circuit = cb.build().map_err(|e| format!("build:{}", short(e)))?;
+        Ok((vi, circuit, op_ids))
+    };
+    let (vi, circuit, op_ids) = build(&proof, pis.len()).unwrap_or_else(|e| panic!("{e}"));
     let positions = circuit.public_flat_len + circuit.private_flat_len;
     let mut f = |op: Op| -> Resp {
         match op {
@@ -236,11 +739,20 @@ fn campaign_uni(seed: u64, per_kind: usize) -> Vec<super::CampaignRes> {
                 walk_uni(&mut pis, &mut proof, &mut prep, v);
                 Resp::Unit
             }
+            Op::Shape(sv) => {
+                swalk_uni(&mut pis, &mut proof, sv);
+                Resp::Unit
+            }
             Op::Native => Resp::Bool(p3_uni_stark::verify(&config, &air, &proof, &pis).is_ok()),
             Op::Run => {
                 let (pv, sv) = vi.pack_values(&pis, &proof, &prep);
                 Resp::Res(run_circuit(&circuit, &pv, &sv, &op_ids, &proof.opening_proof))
             }
+            Op::Rebuild => Resp::Res((|| {
+                let (vi2, c2, ops2) = build(&proof, pis.len())?;
+                let (pv, sv) = vi2.pack_values(&pis, &proof, &prep);
+                run_circuit(&c2, &pv, &sv, &ops2, &proof.opening_proof)
+            })()),
         }
     };
     vec![drive(&name, seed, per_kind, positions, &mut f)]
@@ -271,26 +783,30 @@ fn campaign_batch(seed: u64, per_kind: usize) -> Vec<super::CampaignRes> {
             base_common.lookups.clone(),
         )
     };
-    let mut cb = p3_circuit::CircuitBuilder::<EF>::new();
-    enable_perm(&mut cb);
-    let counts: Vec<usize> = pvs.iter().map(|p| p.len()).collect();
-    let common0 = mk_common(&prep);
-    let vi = BatchBuilder::allocate(&mut cb, &proof, &common0, &counts);
     let params = fri_verifier_params();
     let lookup_gadget = p3_lookup::logup::LogUpGadget::new();
-    let op_ids = p3_recursion::verify_batch_circuit::<CAir, SC, CapT, InputT, OpeningT, p3_lookup::logup::LogUpGadget, _, WIDTH, RATE>(
-        &config,
-        &airs,
-        &mut cb,
-        &vi.proof_targets,
-        &vi.air_public_targets,
-        &params,
-        &vi.common_data,
-        &lookup_gadget,
-        perm_config(),
-    )
-    .unwrap_or_else(|e| panic!("verifier circuit: {e:?}"));
-    let circuit = cb.build().unwrap_or_else(|e| panic!("build: {e:?}"));
+    let build = |proof: &p3_batch_stark::BatchProof<SC>, pvs: &[Vec<F>], prep: &Option<Com>| -> Result<(BatchBuilder, p3_circuit::Circuit<EF>, Vec<p3_circuit::NonPrimitiveOpId>), String> {
+        let mut cb = p3_circuit::CircuitBuilder::<EF>::new();
+        enable_perm(&mut cb);
+        let counts: Vec<usize> = pvs.iter().map(|p| p.len()).collect();
+        let common0 = mk_common(prep);
+        let vi = BatchBuilder::allocate(&mut cb, proof, &common0, &counts);
+        let op_ids = p3_recursion::verify_batch_circuit::<CAir, SC, CapT, InputT, OpeningT, p3_lookup::logup::LogUpGadget, _, WIDTH, RATE>(
+            &config,
+            &airs,
+            &mut cb,
+            &vi.proof_targets,
+            &vi.air_public_targets,
+            &params,
+            &vi.common_data,
+            &lookup_gadget,
+            perm_config(),
+        )
+        .map_err(|e| format!("verifier-circuit:{}", short(e)))?;
+        let circuit = cb.build().map_err(|e| format!("build:{}", short(e)))?;
+        Ok((vi, circuit, op_ids))
+    };
+    let (vi, circuit, op_ids) = build(&proof, &pvs, &prep).unwrap_or_else(|e| panic!("{e}"));
     let positions = circuit.public_flat_len + circuit.private_flat_len;
     let mut f = |op: Op| -> Resp {
         match op {
@@ -298,6 +814,16 @@ fn campaign_batch(seed: u64, per_kind: usize) -> Vec<super::CampaignRes> {
                 walk_batch(&mut pvs, &mut proof, &mut prep, v);
                 Resp::Unit
             }
+            Op::Shape(sv) => {
+                swalk_batch(&mut pvs, true, &mut proof, &mut prep, sv);
+                Resp::Unit
+            }
+            Op::Rebuild => Resp::Res((|| {
+                let (vi2, c2, ops2) = build(&proof, &pvs, &prep)?;
+                let common = mk_common(&prep);
+                let (pv, sv) = vi2.pack_values(&pvs, &proof, &common);
+                run_circuit(&c2, &pv, &sv, &ops2, &proof.opening_proof)
+            })()),
             Op::Native => {
                 let common = mk_common(&prep);
                 Resp::Bool(p3_batch_stark::verify_batch(&config, &airs, &proof, &pvs, &common).is_ok())
@@ -323,6 +849,7 @@ pub fn campaign(seed: u64, per_kind: usize, which: &str) -> Vec<super::CampaignR
         vec![super::CampaignRes {
             setup: format!("{CFG}.{which}"),
             positions: 0,
+            shape_sites: 0,
             baseline_ok: false,
             baseline_note: format!("setup panicked: {}", super::panic_msg(p).chars().take(200).collect::<String>()),
             perts: vec![],
